@@ -23,6 +23,9 @@ checks = {
          "client half (Client.Auth) is covered by the Client.tla family once built; exchanges of up to 2 challenges; one representative per response class plus binary octets", SESS),
  "C10": ("session", "Server half: every pre-STARTTLS history class of the bounded model (greeted, authenticated, mid-transaction, mid-BDAT) x {clean, plaintext injected behind the command}; real TLS handshakes over the in-memory pipe; Logout/NewSession/TLS state compared per edge; walks validated by TLC",
          "client half (DialStartTLS/SendMail) is covered by the Client.tla family once built", SESS),
+ "C19": ("limiter+session", "Limiter.tla: TLC checks, for every stream, segmentation and buffer refill pattern up to the bound, that the line reader's results are the declarative ones (lines split at LF, refusal at the first line longer than the limit, unterminated tails never executed) and that unparsed input held is bounded by limit+buffer; on the real server, line lengths limit-2..limit+3 in five positions of a conversation x three segmentations are recorded and judged by TLC (Trace_Limiter); every BAD/LONG edge of the session graph (error threshold, close, also inside an AUTH exchange) is replayed; all short strings over {NUL,CR,SP,A,':',0xFF} and seeded random binary lines are sent pipelined and their traces validated by TLC against SmtpServer.tla; an endless line must close the connection after a bounded number of octets; the error log must stay free of recovered panics",
+         "Limiter.tla is checked with a scaled-down buffer; the declarative result does not depend on the buffer size; hostile lines are mapped to BAD variants by a classifier mirroring parseCmd; heap is not measured, octets consumed before closing are",
+         "TLA+ model checking (TLC) + TLC-judged recorded cases + edge replay + trace validation"),
 }
 order = sorted(checks)
 out_checks = []
